@@ -19,6 +19,9 @@ Stages (all cases derive from VERIF_SEED):
       what the mode is meant to give, and the result must be the serial definition.  A failing gs_team /
       ilu_team case is additionally compared with the faithful model of the code as it exists
       (SchedTeam.team_trunc: thread t < k runs tasks[t], tasks[t >= k] are run by nobody).
+  S7  WHOLE HIERARCHIES (hier_threads_stage, harness/drv_hier_threads.cpp): amg<builtin<V>, C, spai0> built in a process
+      started with OMP_NUM_THREADS in {1, 2, 4, 16, 17, 32}, V = vq::Q / static_matrix<vq::Q,2,2> / double, C = the four
+      coarsenings; every level (A, P, R, storage order) and apply() / cycle() identical for every thread count.
 """
 import random, itertools, re
 from fractions import Fraction as F
@@ -32,6 +35,7 @@ RULE = ("cases derived from VERIF_SEED by tools/props/C09.py; distinct = distinc
         "schedule dumps with at least two levels or a level split over >= 2 threads, sweeps/kernels with a non-zero result")
 TRUSTED_BASE = [
     "harness/drv_sched.cpp + harness/vq_access.hpp (friend accessor, read-only dump of tasks/ord/ptr/col/val/D)",
+    "harness/drv_hier_threads.cpp (stage S7: amg hierarchies dumped through the accessor amg::levels; the thread count is the OMP_NUM_THREADS of the process and is printed by the driver)",
     "modelling step: sweep()/solve() execute, between two barriers, exactly the rows of the dumped tasks (read off the C++ text); "
     "OpenMP runtime (barrier semantics, memory model) is trusted; stages S1-S5 run with a full team (team size = omp_get_max_threads()), "
     "stage S6 forces smaller / larger teams and compares the team size the driver observes with the one asked for",
@@ -780,6 +784,7 @@ def ht_cfg(r, n, coarsening, exact_small=True, rich=False):
     ml = r.choice([4294967295, 4294967295, 3, 3, 2]) if exact_small else r.choice([4294967295, 3, 3, 3, 2] if rich else [3, 3, 3, 2])
     if ml == 2 or rich:      # rich: double values only
         cyc = [r.choice([1, 1, 2, 0]), r.choice([1, 1, 0]), r.choice([1, 1, 2]), r.choice([1, 1, 2])]
+        if ml > 3: cyc[2] = 1        # a W-cycle over many levels enters thousands of tiny parallel regions (slow at 32 threads)
     else:
         cyc = [r.choice([1, 1, 0]), r.choice([1, 1, 0]), 1, 1]
         if cyc[0] == 0 and cyc[1] == 0: cyc[1] = 1
